@@ -406,8 +406,8 @@ def g_problem(rng):
 
 
 def g_history(rng, quick):
-    nobj = rng.randint(1, 6)
-    idpool = rng.sample([0, 1, 2, 3, 4, 5, 6, 7, -1, 2 ** 40, 10 ** 15, -2 ** 62, 123456], rng.randint(1, min(nobj + 1, 6)))
+    nobj = rng.randint(1, 7)
+    idpool = rng.sample([0, 1, 2, 3, 4, 5, 6, 7, -1, 2 ** 40, 10 ** 15, -2 ** 62, 123456], rng.randint(1, nobj + 1))
     objs = [g_ind(rng, nobj, idpool) for _ in range(nobj)]
     nops = rng.randint(1, 14 if quick else 40)
     ops = []
@@ -613,7 +613,7 @@ def parse_model(ans):
 def by_id(items):
     d = {}
     for it in items:
-        d.setdefault(json.dumps(it.get("id") if isinstance(it, dict) else None, default=str), []).append(it)
+        d.setdefault(pretty(it.get("id")) if isinstance(it, dict) else "?", []).append(it)
     return d
 
 
@@ -688,7 +688,7 @@ def unit_diff(view_wire, err, model_ans):
 
 
 def run_unit(ctx):
-    n = 3000 if ctx.quick else 30000
+    n = 3000 if ctx.quick else 20000
     cases = [unit_case(ctx.rng) for _ in range(n)]
     impl = [unit_impl(c) for c in cases]
     model = ctx.lean(["c10.roundtrip " + w for w, _, _ in impl])
@@ -713,6 +713,9 @@ def run_history_batch(ctx, cases, rundir, tag):
         path = os.path.join(rundir, "%s-%d.sqlite" % (tag, k))
         wp, wops, err = write_history(c, path)
         written.append((path, wp, wops, err))
+        if err is not None:          # first failure of the stream: do not execute the rest
+            break
+    cases = cases[:len(written)]
     okp = [w[0] for w in written if w[3] is None]
     gotd = dict(zip(okp, read_files(okp, rundir))) if okp else {}
     got = [gotd.get(w[0]) for w in written]
@@ -739,7 +742,7 @@ def history_nontrivial(c):
 
 
 def run_history(ctx, rundir):
-    n = 300 if ctx.quick else 4000
+    n = 300 if ctx.quick else 2500
     cases = [g_history(ctx.rng, ctx.quick) for _ in range(n)]
     for lo in range(0, n, 250):
         batch = cases[lo:lo + 250]
@@ -914,6 +917,9 @@ def check_algos(ctx, cfgs, rundir, tag="algo"):
     for k, cfg in enumerate(cfgs):
         path = os.path.join(rundir, "%s-%d.sqlite" % (tag, k))
         runs.append((path,) + run_algo_once(cfg, path))
+        if runs[-1][4] is not None:
+            break
+    cfgs = cfgs[:len(runs)]
     ok = [r for r in runs if r[4] is None]
     got = dict(zip([r[0] for r in ok], read_files([r[0] for r in ok], rundir))) if ok else {}
     lines, index = [], {}
@@ -952,7 +958,7 @@ def judge_algo(cfg, wops, final, last, got, session_ans, view_ans):
         if not a.startswith("ok "):
             return "run-unstorable", "recorded individual %d cannot be stored in its final state" % i, info
         want = parse_wire(a[3:])
-        have = gviews.get(json.dumps(("i", i), default=str), [])
+        have = gviews.get(pretty(("i", i)), [])
         if len(have) != 1:
             return "final-row-count", "recorded individual %d has %d rows after the run" % (i, len(have)), info
         for f in FIELDS:
@@ -969,7 +975,7 @@ def check_algo(ctx, cfg, rundir):
 def run_algos(ctx, rundir):
     rng = ctx.rng
     cfgs = []
-    reps = 2 if ctx.quick else 12
+    reps = 2 if ctx.quick else 8
     for r in range(reps):
         for name in ALGOS:
             cfgs.append({"stream": "algo", "algo": name, "N": rng.choice([3, 4, 5, 6]) if ctx.quick else rng.randint(2, 12),
@@ -1047,7 +1053,8 @@ def run(ctx):
                         "by the test but not modelled",
                         "row order of SELECT without ORDER BY: parameters and costs are compared in insertion order, individuals as a set"]
     with Scratch() as rundir:
-        ok = run_unit(ctx)
+        ok = run_stashed_corpus(ctx, rundir)
+        ok = ok and run_unit(ctx)
         ok = ok and run_history(ctx, rundir)
         ok = ok and run_algos(ctx, rundir)
         if ok:
@@ -1055,19 +1062,34 @@ def run(ctx):
     ctx.traces_validated = ctx.dist.get("history_sync_calls", 0) + ctx.dist.get("algo_sync_calls", 0)
 
 
+_CORPUS = []
+
+
 def run_corpus(ctx, case):
-    c = case.get("case", case)
-    with Scratch() as rundir:
-        if c.get("stream") == "history":
-            for cc, d, _, _ in run_history_batch(ctx, [c], rundir, "corpus"):
-                ctx.case(("corpus", json.dumps(cc, sort_keys=True)), True)
-                if d:
-                    ctx.fail(d[0], "corpus history: " + d[1], cc)
-        elif c.get("stream") == "algo":
-            key, what, _ = check_algo(ctx, c, rundir)
-            ctx.case(("corpus", json.dumps(c, sort_keys=True)), True)
+    """`check` hands over the corpus files one by one before `run`; they are executed as one batch at the
+    beginning of `run` (one reader process, one model call)."""
+    _CORPUS.append(case.get("case", case))
+
+
+def run_stashed_corpus(ctx, rundir):
+    hist = [c for c in _CORPUS if c.get("stream") == "history"]
+    algo = [c for c in _CORPUS if c.get("stream") == "algo"]
+    del _CORPUS[:]
+    if hist:
+        for cc, d, _, _ in run_history_batch(ctx, hist, rundir, "corpus"):
+            ctx.case(("corpus", json.dumps(cc, sort_keys=True)), True)
+            ctx.count("corpus_cases")
+            if d:
+                ctx.fail(d[0], "corpus history: " + d[1], cc)
+                return False
+    if algo:
+        for cfg, key, what, _ in check_algos(ctx, algo, rundir, "corpus"):
+            ctx.case(("corpus", json.dumps(cfg, sort_keys=True)), True)
+            ctx.count("corpus_cases")
             if key:
-                ctx.fail(key, "corpus run: " + what, c)
+                ctx.fail(key, "corpus run: " + what, cfg)
+                return False
+    return True
 
 
 def replay(ctx, rp):
@@ -1107,15 +1129,53 @@ def replay(ctx, rp):
                 gv = by_id([parse_wire(x) for x in got["views"]])
                 for i, w in last.items():
                     want = {k: m_encode(parse_wire(w))[k] for k in FIELDS}
-                    have = gv.get(json.dumps(("i", i), default=str), [])
+                    have = gv.get(pretty(("i", i)), [])
                     if len(have) != 1 or have[0] != want:
                         d = ("final", "recorded individual %d: store has %s, final data %s" % (i, [pretty(h) for h in have], pretty(want)))
                         break
             print("demanded: after the run every recorded individual has exactly one row with its final data")
             print("code:", "agrees" if d is None else "%s: %s" % d)
             return d is None
+        if c.get("stream") == "intcost":      # outside the quantifier (int costs); kept as a documented finding
+            return replay_intcost(c, rundir)
     print("nothing to replay:", rp.get("what"))
     return False
+
+
+def replay_intcost(c, rundir):
+    from artap.problem import Problem
+    from artap.datastore import SqliteDataStore
+    from artap.algorithm_sweep import SweepAlgorithm
+    from artap.operators import CustomGenerator
+    import atexit
+
+    class IntProblem(Problem):
+        def set(self, **kwargs):
+            self.name = "int costs"
+            self.parameters = [{'name': 'x_1', 'initial_value': 2, 'bounds': [-10, 10]}]
+            self.costs = [{'name': 'F', 'criteria': 'minimize'}]
+
+        def evaluate(self, individual):
+            return [individual.vector[0] ** 2]
+    p = IntProblem()
+    atexit.unregister(p.cleanup)
+    path = os.path.join(rundir, "int.sqlite")
+    try:
+        p.data_store = SqliteDataStore(p, database_name=path)
+        g = CustomGenerator(p.parameters)
+        g.init([list(c["vector"])])
+        print("demanded (if integer costs are read into the property): the sweep finishes and the design has a row")
+        try:
+            SweepAlgorithm(p, generator=g).run()
+        except Exception as e:
+            print("code: run raised %s: %s" % (type(e).__name__, e))
+            return False
+        p.data_store.destroy()
+        got = read_files([path], rundir)[0]
+        print("code: stored", got.get("views"))
+        return "error" not in got and len(got["views"]) == 1
+    finally:
+        drop_problem(p)
 
 
 def search(ctx):
